@@ -17,7 +17,7 @@ import (
 func init() {
 	register(&Spec{ID: "C06", Title: "Package encodings are self-consistent and match their wire layout", Run: runC06,
 		Meta: core.Meta{
-			Explanation: "R06.25: valueMask.isEmpty takes no sub-slice of the mask. R06.4 also requires that the format readers that report a byte count (ReadFromField) account for every variable-length read. R06.24: no argument of WriteUint32 in ParamFmtPackage.WriteToField passes through a narrower integer conversion. R06.22 (exhaustiveness, table confirmed by reading): the type switch of ParamsPackage.LastPkg asserts *ParamFmtPackage, *RowFmtPackage, *ParamsPackage, *RowPackage, *OrderByPackage and *OrderBy2Package. R06.23: the store of fieldFmtBase.maxLength in readFromBase dominates every success return. R06.20: every writeString call of LoginConfig.pack has its error examined. R06.21: in fieldDataBase.writeTo the last argument of writeLengthBytes is len(bs) of the slice handed to WriteBytes. R06.18 = R07.1 (E-ERR at all wire-read call sites: a package the writer produced and a packet boundary cut is retried, not mis-decoded or reported as a parse error). R06.19: for the loop-free readers that return a byte count (status, precision, scale, ENVCHANGE member) the count returned on every success path equals, as a linear form over the lengths read from the wire, the widths consumed on that path. R06.17: in CapabilityPackage.ReadFrom every update of Capabilities stores a value built by a call on the bytes just read from the channel. R06.16 (sibling agreement): readFromStatus and writeToStatus leave the status byte out under the same condition on the format status (same expression, same polarity). R06.15 (sibling-table agreement): every arm of LookupFieldFmt for a data type constant X creates exactly one <X>FieldFmt (names compared case-insensitively; the convention holds for all arms of the reviewed tree) — reader and writer share this table, so E-SHAPE cannot see a wrong entry. Decides agreement of writer and reader on the SEQUENCE OF FIELD WIDTHS (wire shape), not on values. R06.1 (E-SHAPE): for every tds type with both ReadFrom and WriteTo on a BytesChannel — packages per `wide` variant, and every distinct FieldFmt/FieldData codec pair — the SSA-derived automaton of the writer's successful executions (letters 1,2,4,8 = typed widths, S = variable run, FMT/DAT = interface-dispatched field codecs; static helpers inlined; error sides of `err != nil` pruned) minus the leading token byte is language-included in the reader's automaton; a shortest counterexample names the write site and where the reader stood. R06.2 (E-CONST): the token a writer emits is one LookupPackage maps to the same type and `wide` flag. R06.3: server-only readers (ROWFMT, ROWFMT2, ORDERBY, ORDERBY2) and TDS_ERROR accept the layout written down from the TDS 5.0 specification. R06.4: read-side byte accounting — between two wire reads of a reader that checks a declared length, the counter grows by exactly the width just read. R06.5: per-iteration parse targets are fresh (a struct filled by ReadFrom inside a loop is allocated or zeroed inside that loop). R06.6: the login record helper writeString rejects oversized fields before writing (the write is dominated by a length test against padTo whose failing edge returns an error). R06.7 (write-side length formula): for writers without loops or delegated field codecs, on every success path (branch decisions on syntactically equal conditions kept consistent) the value written as the length prefix, as a linear form const + Σ len(field), equals the sum of the widths written after it; a prefix computed from anything else (e.g. a rune count) is a violation, and the nine writers the rule applied to on the reviewed tree are its floor. R06.9 (field order): E-SHAPE compares widths and is blind to a swap of neighbouring fields of equal width, also when reader and writer are changed together; for CURINFO, ERROR, EED, DONE, LOGINACK, MSG, DYNAMIC, CURDECLARE, CURCLOSE, CURDELETE, CURFETCH, CUROPEN, CURUPDATE, LANGUAGE, OPTIONCMD and the ENVCHANGE member the order of the fields on the wire is transcribed from the TDS 5.0 specification, and on every CFG path ReadFrom assigns the fields from wire reads, and WriteTo hands them to the channel writers, in that order (every listed field must be seen). R06.11 (ParamFmtPackage.WriteTo, the one writer whose length prefix is accumulated in a loop): per `wide` variant, as linear forms over len(e.Name()), len(e.LocaleInfo()) and the element codec's own byte count, (a) what WriteToField reports equals the widths it writes on every success path, (b) the per-element increment of the pre-computed length equals that, (c) the initial value equals the fixed bytes between the length field and the elements. Premise, not checked: FormatByteLength() of a field format equals what its WriteTo writes. R06.12 (all packages with a reader and a writer): whenever ReadFrom assigns field f from the wire before field g and never the other way round, WriteTo does not send g before f on all its paths — a one-sided swap of equally wide fields, which the width comparison cannot see. R06.13 (E-CONST): for every data type listed in asetypes.ByteSizes the setMaxLength constant of its arm in LookupFieldFmt equals the listed size (the writer produces MaxLength bytes, format and readers assume ByteSize bytes; a fixed-length format carries no length on the wire). R06.14: for every package with a reader and a writer, each field that WriteTo hands to the channel on every success path is assigned from the wire on every success path of ReadFrom (a reader that stores a value only under a condition on another field drops what was written). R06.10: no append in package tds extends a slice that the same function made with a non-zero length (directly, through a loop φ, or through a field stored before the append) — `make([]T, n)` + append yields n zero elements in front of the parsed ones, which the writer then serialises with a different count and length. R06.8 (purity): nothing reachable through static calls from a package's WriteTo stores through a pointer parameter or into a package variable — serialising must not change what is serialised next time.",
+			Explanation: "R06.29 = R07.18. R06.26: in package tds the value of a typed read (UintK/IntK of a BytesChannel or PacketQueue) is never converted to an integer type of fewer bits than were read (a named wire type narrower than its slot drops the upper bytes the peer sent). R06.27: for every data type constant, LookupFieldFmt creates XFieldFmt and LookupFieldData creates XFieldData of the same X (sibling tables). R06.28: every success return of fieldDataBase.readFrom is dominated by its ch.Bytes call (writeTo always writes length and data after the status byte). R06.25: valueMask.isEmpty takes no sub-slice of the mask. R06.4 also requires that the format readers that report a byte count (ReadFromField) account for every variable-length read. R06.24: no argument of WriteUint32 in ParamFmtPackage.WriteToField passes through a narrower integer conversion. R06.22 (exhaustiveness, table confirmed by reading): the type switch of ParamsPackage.LastPkg asserts *ParamFmtPackage, *RowFmtPackage, *ParamsPackage, *RowPackage, *OrderByPackage and *OrderBy2Package. R06.23: the store of fieldFmtBase.maxLength in readFromBase dominates every success return. R06.20: every writeString call of LoginConfig.pack has its error examined. R06.21: in fieldDataBase.writeTo the last argument of writeLengthBytes is len(bs) of the slice handed to WriteBytes. R06.18 = R07.1 (E-ERR at all wire-read call sites: a package the writer produced and a packet boundary cut is retried, not mis-decoded or reported as a parse error). R06.19: for the loop-free readers that return a byte count (status, precision, scale, ENVCHANGE member) the count returned on every success path equals, as a linear form over the lengths read from the wire, the widths consumed on that path. R06.17: in CapabilityPackage.ReadFrom every update of Capabilities stores a value built by a call on the bytes just read from the channel. R06.16 (sibling agreement): readFromStatus and writeToStatus leave the status byte out under the same condition on the format status (same expression, same polarity). R06.15 (sibling-table agreement): every arm of LookupFieldFmt for a data type constant X creates exactly one <X>FieldFmt (names compared case-insensitively; the convention holds for all arms of the reviewed tree) — reader and writer share this table, so E-SHAPE cannot see a wrong entry. Decides agreement of writer and reader on the SEQUENCE OF FIELD WIDTHS (wire shape), not on values. R06.1 (E-SHAPE): for every tds type with both ReadFrom and WriteTo on a BytesChannel — packages per `wide` variant, and every distinct FieldFmt/FieldData codec pair — the SSA-derived automaton of the writer's successful executions (letters 1,2,4,8 = typed widths, S = variable run, FMT/DAT = interface-dispatched field codecs; static helpers inlined; error sides of `err != nil` pruned) minus the leading token byte is language-included in the reader's automaton; a shortest counterexample names the write site and where the reader stood. R06.2 (E-CONST): the token a writer emits is one LookupPackage maps to the same type and `wide` flag. R06.3: server-only readers (ROWFMT, ROWFMT2, ORDERBY, ORDERBY2) and TDS_ERROR accept the layout written down from the TDS 5.0 specification. R06.4: read-side byte accounting — between two wire reads of a reader that checks a declared length, the counter grows by exactly the width just read. R06.5: per-iteration parse targets are fresh (a struct filled by ReadFrom inside a loop is allocated or zeroed inside that loop). R06.6: the login record helper writeString rejects oversized fields before writing (the write is dominated by a length test against padTo whose failing edge returns an error). R06.7 (write-side length formula): for writers without loops or delegated field codecs, on every success path (branch decisions on syntactically equal conditions kept consistent) the value written as the length prefix, as a linear form const + Σ len(field), equals the sum of the widths written after it; a prefix computed from anything else (e.g. a rune count) is a violation, and the nine writers the rule applied to on the reviewed tree are its floor. R06.9 (field order): E-SHAPE compares widths and is blind to a swap of neighbouring fields of equal width, also when reader and writer are changed together; for CURINFO, ERROR, EED, DONE, LOGINACK, MSG, DYNAMIC, CURDECLARE, CURCLOSE, CURDELETE, CURFETCH, CUROPEN, CURUPDATE, LANGUAGE, OPTIONCMD and the ENVCHANGE member the order of the fields on the wire is transcribed from the TDS 5.0 specification, and on every CFG path ReadFrom assigns the fields from wire reads, and WriteTo hands them to the channel writers, in that order (every listed field must be seen). R06.11 (ParamFmtPackage.WriteTo, the one writer whose length prefix is accumulated in a loop): per `wide` variant, as linear forms over len(e.Name()), len(e.LocaleInfo()) and the element codec's own byte count, (a) what WriteToField reports equals the widths it writes on every success path, (b) the per-element increment of the pre-computed length equals that, (c) the initial value equals the fixed bytes between the length field and the elements. Premise, not checked: FormatByteLength() of a field format equals what its WriteTo writes. R06.12 (all packages with a reader and a writer): whenever ReadFrom assigns field f from the wire before field g and never the other way round, WriteTo does not send g before f on all its paths — a one-sided swap of equally wide fields, which the width comparison cannot see. R06.13 (E-CONST): for every data type listed in asetypes.ByteSizes the setMaxLength constant of its arm in LookupFieldFmt equals the listed size (the writer produces MaxLength bytes, format and readers assume ByteSize bytes; a fixed-length format carries no length on the wire). R06.14: for every package with a reader and a writer, each field that WriteTo hands to the channel on every success path is assigned from the wire on every success path of ReadFrom (a reader that stores a value only under a condition on another field drops what was written). R06.10: no append in package tds extends a slice that the same function made with a non-zero length (directly, through a loop φ, or through a field stored before the append) — `make([]T, n)` + append yields n zero elements in front of the parsed ones, which the writer then serialises with a different count and length. R06.8 (purity): nothing reachable through static calls from a package's WriteTo stores through a pointer parameter or into a package variable — serialising must not change what is serialised next time.",
 			NotDecided:  "Field values, capability bit positions, login record offsets, length maxima, and the numeric value of written length prefixes (the EED writer's length base 11 vs 16 is outside these rules) are not decided.",
 			Assumptions: []string{"the five layout lines of R06.3 transcribe the TDS 5.0 functional specification", "branch correlation is ignored on both sides equally (both languages only grow)"},
 		}})
@@ -172,6 +172,14 @@ func runC06(r *core.Run) {
 		defer statusNotNarrowed(r, "R06.24")
 		r.Rule("R06.25", "a capability type is written whenever any of its capabilities is set", 1, false)
 		defer isEmptyLooksAtAll(r, "R06.25")
+		r.Rule("R06.26", "a value read from the wire keeps its width", 40, false)
+		defer wireReadsNotNarrowed(r, "R06.26")
+		r.Rule("R06.27", "format and data of one data type are siblings", 30, false)
+		defer lookupSiblingsAgree(r, "R06.27")
+		r.Rule("R06.28", "a field value is read as it is written: status, length, data", 1, false)
+		defer readFromPassesData(r, "R06.28")
+		r.Rule("R06.29", "fixed-width values have the width TDS names them after (R07.18)", 10, false)
+		defer byteSizesMatchNames(r, "R06.29")
 		p := r.Prog
 		rfb := p.Func("tds", "fieldFmtBase", "readFromBase")
 		var rd ssa.Instruction
